@@ -359,6 +359,9 @@ def run(ctx: Ctx):
     # ------------------------------------------------------------- FRESH: history independence of returned objects (spec/Fresh.tla)
     from vf import fresh
     fresh.step(ctx, "C20")
+    # ------------------------------------------------------------- VIEW: views after every edit history (spec/View.tla)
+    from vf import view
+    view.step(ctx, "C20")
     return ctx.finish(rule=(
         "all trees with <=4/5 nodes over {VEVENT, VTODO, X-U} x {no property, SUMMARY}; all pairs of trees with <=3(/4) nodes; "
         "random trees to depth 6 with typed values copied by deepcopy/pickle/reparse, shuffled and perturbed, both providers; "
